@@ -76,7 +76,7 @@ structure Elem where
   contentBBox : Option Gen.BoundingBox := none
   /-- `event_range` start == end (an empty element) -/
   isEmpty : Bool := true
-deriving Repr, Inhabited
+deriving Repr, Inhabited, DecidableEq
 
 namespace Elem
 
